@@ -2,6 +2,7 @@ import RgVerif.Props.C11
 import RgVerif.Lemmas.HirC01Regex
 import RgVerif.Lemmas.HirContext
 import RgVerif.Lemmas.HirContextU
+import RgVerif.Lemmas.HirContextCRLF
 /-
 C01, regex part — what the matcher built by `RegexMatcherBuilder::build_many` (`Config.build`)
 contributes to "a line is reported iff the pattern matches that line":
@@ -226,6 +227,46 @@ theorem LineSafeB_partial_unicode (isWord : Nat → Bool) (hw : isWord 10 = fals
       · exact lookAt_ctx_lf isWord hl.toIsLine k hk
       · exact lookAt_ctx_unicode isWord hw hl k hk)
     h hsafe h1 hse h2
+
+/-! ### clause (b) under `--crlf` -/
+
+/-- **Clause (b) for CRLF mode**: on the *content* of a line (`IsLineCRLF`: the text before `\n` minus
+a `\r` directly before it, as `lines::without_terminator` cuts it), an expression whose looks are the
+CRLF-aware anchors, ASCII word assertions or Unicode word assertions matches a span of the buffer inside
+the content iff it matches that span of the content taken alone.  (Guard for the Unicode assertions as
+in the LF case; `\n` and `\r` are not word characters.) -/
+theorem LineSafeB_partial_crlf (isWord : Nat → Bool) (hw10 : isWord 10 = false) (hw13 : isWord 13 = false)
+    (h : Hir) (hsafe : allLooks (fun k => safeLookCRLF k || safeLookU k) h = true)
+    (buf : Bytes) (ls le : Nat) (hl : IsLineCRLF buf ls le)
+    (hg : ls = le ∨ isContByte (buf.getD ls 0) = false)
+    (s e : Nat) (h1 : ls ≤ s) (hse : s ≤ e) (h2 : e ≤ le) :
+    Matches (lookAt isWord) h buf s e ↔ Matches (lookAt isWord) h (slice buf ls le) (s - ls) (e - ls) :=
+  matches_ctx_iff hl.ls_le hl.le_len
+    (fun k hk => by
+      rcases Bool.or_eq_true_iff.1 hk with hk | hk
+      · exact lookAt_ctx_crlf isWord hl k hk
+      · exact lookAt_ctx_crlf_unicode isWord hw10 hw13 hl hg k hk)
+    h hsafe h1 hse h2
+
+/-- What the fast path additionally needs under CRLF, stated in full: a match that starts inside a
+line (anywhere before its `\n`) lies inside the line's content. -/
+def CrlfMatchInsideContent_full : Prop :=
+  ∀ (isWord : Nat → Bool) (h : Hir), allLooks (fun k => safeLookCRLF k || safeLookU k) h = true →
+    noByte 13 h = true → noByte 10 h = true →
+    ∀ (buf : Bytes) (ls le : Nat), IsLineCRLF buf ls le →
+    ∀ s e, ls ≤ s → s ≤ le + 1 → Matches (lookAt isWord) h buf s e → e ≤ le
+
+/-- It fails (finding F1): `(?-u:\B)` under `--crlf` has an empty match between the `\r` and the `\n`
+of `a\r\n` — inside the line, outside its content `a`; the fast path reports the line. -/
+theorem CrlfMatchInsideContent_full_fails : ¬ CrlfMatchInsideContent_full := by
+  intro hfull
+  have hl : IsLineCRLF [97, 13, 10] 0 1 :=
+    ⟨by decide, by decide, Or.inl rfl, Or.inr (Or.inr ⟨by decide, by decide⟩),
+      by intro i h1 h2; have : i = 0 := by omega
+         subst this; decide⟩
+  have := hfull (fun _ => false) (.look .WordAsciiNegate) (by rfl) (by rfl) (by rfl) [97, 13, 10] 0 1 hl 2 2
+    (by decide) (by decide) (crlf_match_between_cr_and_lf _)
+  omega
 
 /-- Non-vacuity: `^a\b.$` (multi-line, ASCII word boundary) satisfies the guard, and the second line
 of `x\nab\n` is a line window. -/
